@@ -37,6 +37,7 @@ type Reg struct {
 	Paths   []string `json:",omitempty"` // usemulti
 	H       []H      `json:",omitempty"` // handlers (group: optional group middleware)
 	Items   []Reg    `json:",omitempty"` // group: nested registrations; route: chained method registrations (Kind add)
+	Plain   bool     `json:",omitempty"` // mount: the sub-app was created with the default CaseSensitive/StrictRouting/UnescapePath; the app that dispatches decides
 }
 
 type Case struct {
@@ -139,7 +140,11 @@ func install(r registrar, regs []Reg, trace *[]string, cfg fiber.Config) {
 			grp := r.Group(g.Path, hs...)
 			install(grp, g.Items, trace, cfg)
 		case "mount":
-			sub := fiber.New(cfg)
+			subCfg := cfg
+			if g.Plain {
+				subCfg = fiber.Config{RequestMethods: cfg.RequestMethods}
+			}
+			sub := fiber.New(subCfg)
 			install(sub, g.Items, trace, cfg)
 			r.Use(g.Path, sub)
 		case "route":
@@ -574,11 +579,11 @@ func (g *gen) reg(depth int, prev []Reg, pathPool []string) []Reg {
 			return []Reg{{Kind: "add", Methods: []string{g.methods[0]}, Path: pickPath(), H: g.handlers(2, false)}}
 		}
 		g.mounted = true // one mount per table: two mounts on one prefix are finding C04-b territory
-		r := Reg{Kind: "mount", Path: rapid.SampledFrom([]string{"/m", "/ab", "/abc", "/a", "/"}).Draw(t, "mprefix")}
+		r := Reg{Kind: "mount", Path: rapid.SampledFrom([]string{"/m", "/ab", "/abc", "/a", "/", "/"}).Draw(t, "mprefix"), Plain: rapid.Bool().Draw(t, "mplain")}
 		n := rapid.IntRange(1, 4).Draw(t, "mitems")
 		for i := 0; i < n; i++ {
 			k := rapid.SampledFrom([]string{"add", "add", "use", "all"}).Draw(t, "mkind")
-			p := rapid.SampledFrom([]string{"/", "/x", "/:p", "/*", "/ab", "/abc", "/abc/x", "/x/"}).Draw(t, "mpath")
+			p := rapid.SampledFrom([]string{"/", "/x", "/:p", "/*", "/ab", "/abc", "/abc/x", "/x/", "/Ab", "/AB/x/"}).Draw(t, "mpath")
 			switch k {
 			case "add":
 				ms := rapid.SliceOfNDistinct(rapid.SampledFrom(g.methods), 1, 2, rapid.ID[string]).Draw(t, "mmethods")
